@@ -382,7 +382,7 @@ def judge(ctx, cases):
         if op in ("arcs_to_cubics", "as_cmd_seq"):
             # near-1e-9 inputs exercise the start-snapping (correspondence only): the arc
             # structure judge needs exact end points
-            if "e-09" not in d and "e-10" not in d:
+            if ("e-09" not in d and "e-10" not in d) or d in FULL_TURNS:
                 why = arcs_replaced(src, dst)
                 if not why:
                     # "the same point set within a small bound": every arc's cubics on the true ellipse
@@ -437,10 +437,19 @@ def round_check(d, outd, n):
     return None
 
 
+# a whole ellipse drawn as one large arc that ends a hair from where it began (at the subpath start): the end-point
+# snapping of the rewrites must not collapse it
+FULL_TURNS = ["M0,0 A5 5 0 1 1 1e-10,0", "M0,0 a5 5 0 1 1 1e-10,0 z", "M10,20 A8 4 30 1 0 10,20.0000000005 Z", "M3,3 a6 6 0 1 0 -5e-10,3e-10"]
+
+
 def search(ctx, disagreements):
     rng = ctx.rng
     ds = getattr(ctx, "_paths", None) or gen_paths(ctx, 2, 800)
     cases = []
+    for d in FULL_TURNS:
+        for op in ("as_cmd_seq", "arcs_to_cubics", "absolute", "relative"):
+            if op in OPS:
+                cases.append((op, d, extra_for(rng, op)))
     budget = 40000 if ctx.thorough() else 9000
     if ctx.escalate:
         budget *= 3
